@@ -298,8 +298,12 @@ class _Emb(torch.nn.Module):
         return x
 
 
+def _fad_preproc(w):
+    return w.reshape(-1, 2)
+
+
 def _fad_ctor(**kw):
-    return M.FrechetAudioDistance(lambda w: w.reshape(-1, 2), _Emb(), 2)
+    return M.FrechetAudioDistance(_fad_preproc, _Emb(), 2)
 
 
 def g_fad(rng, cfg, n):
